@@ -8,6 +8,8 @@ import time
 
 ROOT = os.path.dirname(os.path.dirname(os.path.abspath(__file__)))
 REPO = os.environ.get("VERIF_REPO", "/repo")
+# evidence and replays of runs against a copy of the repository (tooling only) never overwrite the real ones
+OUT = ROOT if REPO == "/repo" else os.path.join(ROOT, ".work", "alt-" + os.path.basename(REPO.rstrip("/")))
 if REPO not in sys.path:
     sys.path.insert(0, REPO)
 
@@ -99,13 +101,13 @@ def finish(ctx, res, level="model_checking"):
     for _, (f, n, v) in sorted(hit.items(), key=lambda kv: kv[1][0].get("id", "")):
         print("KNOWN-FINDING: property=%s %s [%s; %d explored case(s), e.g. %s]" % (
             ctx.prop, f["description"], f.get("id", "?"), n, v.what))
-    os.makedirs(os.path.join(ROOT, "replays"), exist_ok=True)
+    os.makedirs(os.path.join(OUT, "replays"), exist_ok=True)
     nviol = 0
     for sig, vs in sorted(new.items()):
         v = min(vs, key=lambda x: len(json.dumps(x.case)))
         h = hashlib.sha1(sig.encode()).hexdigest()[:10]
         rel = "replays/%s-%s.json" % (ctx.prop, h)
-        with open(os.path.join(ROOT, rel), "w") as f:
+        with open(os.path.join(OUT, rel), "w") as f:
             json.dump({"property": ctx.prop, "signature": sig, "what": v.what, "clauses": v.clauses,
                        "case": v.case, "count": len(vs)}, f, indent=1)
         print("VIOLATION property=%s replay=%s  # %s (%d case(s)) sig=%s" % (ctx.prop, rel, v.what, len(vs), sig))
@@ -135,8 +137,8 @@ def finish(ctx, res, level="model_checking"):
         "wall_s": round(wall, 2),
         "violations": nviol,
     }
-    os.makedirs(os.path.join(ROOT, "evidence"), exist_ok=True)
-    with open(os.path.join(ROOT, "evidence", ctx.prop + ".json"), "w") as f:
+    os.makedirs(os.path.join(OUT, "evidence"), exist_ok=True)
+    with open(os.path.join(OUT, "evidence", ctx.prop + ".json"), "w") as f:
         json.dump(ev, f, indent=1, default=str)
     print("%s %s: %d evaluations, %d real executions validated, %d TLC states, %d known-finding cases, %d new violation signature(s), %.1fs" % (
         ctx.prop, ctx.tier, res.evaluations, res.traces, res.states, sum(x[1] for x in hit.values()), nviol, wall))
